@@ -34,11 +34,13 @@ package main
 //@ func serverApp.warnIPRange
 //@   tags C04
 //@   requires sapp != nil && listener != nil
+//@   requires sapp.ClientWhitelist != nil ==> len(sapp.ClientWhitelist.left) == 16 && len(sapp.ClientWhitelist.right) == 16 @range-built-by-UnmarshalText
 
 // Wiring of the server command: what Serve is started with.
 //@ func serverApp.server results(err)
 //@   tags C15,C05,C16,C01,C04
 //@   requires sapp != nil
+//@   requires sapp.ClientWhitelist != nil ==> len(sapp.ClientWhitelist.left) == 16 && len(sapp.ClientWhitelist.right) == 16 @range-built-by-UnmarshalText
 //@   modifies srvListener, srvHandler, srvTimeout
 //@   let h = cast(srvHandler, "handler.Handler")
 //@   ensures[C16] err == nil ==> srvTimeout == sapp.ReadTimeout @configured-timeout-reaches-the-server
